@@ -220,3 +220,13 @@ func VerifC18FailedReloadChangesNothing() {
 	_, pz := state.resolvePull("/pz")
 	vrt.Assert("C18.reload.failure-leaves-pull-mapping-as-before", !pz)
 }
+
+// hReloadSame runs the real reloadConfig with the file/parse/compile pipeline natively replaced by a
+// temp file holding a configuration equivalent to `running` — here simply by calling the same tail the
+// reload executes. (Natively there is no function replacement, so this helper goes through state.reload.)
+func hReloadSame(running config.Compiled, state *runtimeState) (config.Compiled, bool) {
+	if err := state.reload(running); err != nil {
+		return running, false
+	}
+	return running, true
+}
